@@ -11,6 +11,7 @@ import DDS.Props.C04GenPag
 import DDS.Props.NonVacuity
 import DDS.Props.C06GenPag
 import DDS.Props.C09GenStore
+import DDS.Props.C12GenIter
 
 namespace DDS.Props.NonVacuityGen
 
@@ -548,6 +549,97 @@ example (fuel : Nat) :
   · rw [h5]; decide +kernel
   · rw [h5]; decide +kernel
 
+/-- `sparse_to_dense_fromProto`: the instance `GenDecodeWrap.denseI` meets `DenseAdds` -/
+example (fuel fuel2 : Nat) :
+    ∃ m d, Gen.SparseProto.SparseStore.ToProto fuel GenSparse.descending ⟨spC⟩ = .ok m ∧
+      @Gen.DenseFromProto.FromProto GenDecodeWrap.denseI fuel2 MapOrder.ascending (toF64 m)
+        = .ok (GenDense.toGen d) ∧
+      Lift.Good (.d d) ∧ Lift.contentOf (.d d) = spC :=
+  sparse_to_dense_fromProto spC_rep spC_32 GenSparse.descending MapOrder.ascending GenSparse.descending_lawful
+    GenSparse.ascending_lawful GenDecodeWrap.denseI GenDecodeWrap.denseI_adds fuel fuel2
+
 end C09
+
+/-! ## C12GenIter: iteration and approximate sum on regenerated code -/
+section C12
+open DDS.QuantileEx DDS.GenSketch DDS.GenSketch7 DDS.Extremes DDS.Props.C12GenIter
+
+theorem exCp6_wf : C06.exCp.WF := RoundTrip.wf_of_wfb _ (by decide +kernel)
+theorem exCn6_wf : C06.exCn.WF := RoundTrip.wf_of_wfb _ (by decide +kernel)
+
+/-- `forEach_gen_bins`: the sketch `C06.exS` (a DENSE positive store, a PAGINATED negative store, zero count `3/4`),
+    refining `exCp = [(5, 2), (7, 1), (8, 3)]`, `exCn = [(1, 2), (2, 1), (3, 1)]`; seven bins are reported -/
+example (fuel : Nat) : ∃ l : List (F64 × Rat),
+    C06.exS.forEachList C12.envC = some l ∧
+    Gen.SketchIter.DDSketch.ForEach fuel (toGen C12.envC C06.exS) [] recorder = .ok (liftL l) ∧
+    (∀ p ∈ l, 0 < p.2) ∧ (l.map (·.2)).sum = 3 / 4 + C06.exCp.total + C06.exCn.total ∧ l.length = 7 := by
+  obtain ⟨l, h1, h2, h3, h4⟩ := forEach_gen_bins C12.envC C06.exS C06.exCp C06.exCn (3 / 4) C06.exS_refines rfl
+    exCp6_wf exCn6_wf (by norm_num) fuel
+  refine ⟨l, h1, h2, h3, h4, ?_⟩
+  have hc := Sketch.forEachList_congr C12.envC C06.exS_refines
+  rw [h1] at hc
+  have : ((Sketch.spec C06.exS.mapping C06.exCp C06.exCn C06.exS.zero).forEachList C12.envC).map List.length
+      = some 7 := by decide +kernel
+  rw [← hc] at this
+  exact Option.some.inj this
+
+/-- `forEach_gen_stops`: a visitor that stops on the first NEGATIVE value -/
+example (fuel : Nat) : ∃ l : List (F64 × Rat), C06.exS.forEachList C12.envC = some l ∧
+    Gen.SketchIter.DDSketch.ForEach fuel (toGen C12.envC C06.exS) ([] : List (F64 × F64))
+      (fun log v c => .ok (log ++ [(v, c)], (fun v _ => F64.lt v (.fin 0)) v c))
+        = .ok (takeThrough (fun v _ => F64.lt v (.fin 0)) (liftL l)) ∧
+    takeThrough (fun v _ => F64.lt v (.fin 0)) (liftL l) <+: liftL l := by
+  obtain ⟨l, h1, _⟩ := forEach_gen_bins C12.envC C06.exS C06.exCp C06.exCn (3 / 4) C06.exS_refines rfl
+    exCp6_wf exCn6_wf (by norm_num) fuel
+  exact ⟨l, h1, forEach_gen_stops C12.envC C06.exS l h1 rfl fuel _⟩
+
+/-- non-negative inputs, two of them in the zero bucket -/
+def nnXs : List Rat := [5, 1, 3, 0, 12]
+
+theorem nnXs_ok : ∀ x ∈ nnXs, rabs x ≤ 12 := by
+  intro x hx
+  simp only [nnXs, List.mem_cons, List.not_mem_nil, or_false] at hx
+  rcases hx with rfl | rfl | rfl | rfl | rfl <;> (unfold rabs; norm_num)
+
+theorem nnXs_nonneg : ∀ x ∈ nnXs, 0 ≤ x := by
+  intro x hx
+  simp only [nnXs, List.mem_cons, List.not_mem_nil, or_false] at hx
+  rcases hx with rfl | rfl | rfl | rfl | rfl <;> norm_num
+
+def nnL : List (F64 × Rat) := [(.fin 0, 2), (.fin 2, 1), (.fin 6, 2)]
+
+theorem nnL_exact : SumExact nnL := by
+  constructor
+  · intro p hp
+    simp only [nnL, List.mem_cons, List.not_mem_nil, or_false] at hp
+    rcases hp with rfl | rfl | rfl <;> exact ⟨_, rfl, by decide +kernel⟩
+  · intro k hk
+    simp only [nnL, List.length_cons, List.length_nil] at hk
+    have hk' : k = 0 ∨ k = 1 ∨ k = 2 ∨ k = 3 := by omega
+    rcases hk' with rfl | rfl | rfl | rfl <;> decide +kernel
+
+/-- `getSum_gen_accuracy` (and `getSum_gen_exact`): all of its hypotheses hold of `nnXs` under `exEnv`; the regenerated
+    `GetSum` returns `14`, the true sum of the inputs (1 counting as 0) is `20`, and `|14 - 20| ≤ 1/2 · 20` -/
+example (fuel : Nat) : ∃ s,
+    Sketch.addAll exEnv (Sketch.new (some exEnv.id) .sparse) (nnXs.map (fun x => (x, 1))) = some s ∧
+    s.forEachList exEnv = some nnL ∧ s.zero.isFinite = true ∧
+    Gen.SketchIter.DDSketch.GetSum fuel (toGen exEnv s) = .ok (.fin 14) ∧
+    ∃ A : Rat, Gen.SketchIter.DDSketch.GetSum fuel (toGen exEnv s) = .ok (.fin A) ∧
+      rabs (A - (sortedInputs (4 / 3) nnXs).sum) ≤ 1 / 2 * rabs (sortedInputs (4 / 3) nnXs).sum := by
+  obtain ⟨s, hs⟩ := C01.addAll_ok exEnv _ _ _ exContract nnXs nnXs_ok
+  have hspec := hs
+  rw [DDS.new_sparse, addAll_units exEnv _ _ _ exContract nnXs nnXs_ok] at hspec
+  have hl : s.forEachList exEnv = some nnL := by
+    cases hspec; decide +kernel
+  have hz : s.zero.isFinite = true := by
+    cases hspec; decide +kernel
+  have hsum := (getSum_gen_exact exEnv s nnL hl nnL_exact hz fuel).1
+  have e14 : approxSumL nnL = 14 := by decide +kernel
+  rw [e14] at hsum
+  exact ⟨s, hs, hl, hz, hsum,
+    getSum_gen_accuracy exEnv _ _ _ exContract nnXs nnXs_ok (by simp [nnXs]) s hs
+      (Or.inl (sortedInputs_nonneg_of (4 / 3) nnXs nnXs_nonneg)) nnL hl nnL_exact hz fuel⟩
+
+end C12
 
 end DDS.Props.NonVacuityGen
